@@ -157,6 +157,7 @@ func RunOne(scn Scenario, tmpl, dir string, tr int, seed int64, choices []string
 		cur[k] = v
 	}
 	step := 0
+	settle := 0
 	for {
 		// procs that were waiting for a lock may have reached a call boundary by now
 		for _, name := range order {
@@ -190,11 +191,19 @@ func RunOne(scn Scenario, tmpl, dir string, tr int, seed int64, choices []string
 		}
 		if len(enabled) == 0 {
 			if len(lockBlocked) > 0 {
+				// nothing can move: either a real deadlock, or a proc that was only briefly waiting
+				// (for a lock of the harness or the driver) when it was classified. Give it time.
+				if settle < 40 {
+					settle++
+					time.Sleep(time.Duration(settle) * time.Millisecond)
+					continue
+				}
 				res.Err = fmt.Errorf("deadlock: procs %v wait for a lock and nothing else can move", lockBlocked)
 				return
 			}
 			break
 		}
+		settle = 0
 		chosen := ""
 		if step < len(choices) {
 			chosen = choices[step]
@@ -205,6 +214,13 @@ func RunOne(scn Scenario, tmpl, dir string, tr int, seed int64, choices []string
 				}
 			}
 			if !found {
+				// the proc may be about to arrive (it was briefly waiting for a harness lock): wait for it
+				if p, ok := procs[chosen]; ok && !p.Done && settle < 40 {
+					settle++
+					time.Sleep(time.Duration(settle) * time.Millisecond)
+					lockBlocked[chosen] = true
+					continue
+				}
 				res.Err = fmt.Errorf("schedule diverged at step %d: %s not enabled (enabled %v)", step, chosen, enabled)
 				return
 			}
